@@ -23,6 +23,7 @@ type Batch struct {
 	Kind     string            `json:"kind,omitempty"`      // "" = worker process, "synctest" = go1.26.8 test bubble
 	TimeoutS int               `json:"timeout_s,omitempty"` // wall-clock watchdog (inconclusive when it fires)
 	Weight   int               `json:"-"`                   // scheduling hint: cores used
+	Yield    bool              `json:"yield,omitempty"`     // run by the binary built against the schedule-perturbed copy (cmd/perturb), VERIF_YIELD set
 }
 
 // Ctx is what a worker gets.
@@ -66,6 +67,10 @@ func (c *Ctx) Want(gen string, idx int) bool {
 		return false
 	}
 	setCurrentCase(c.Seed, c.Prop+"/"+c.Batch.Name+"/"+id)
+	if c.Batch.Yield {
+		// every case of a perturbed batch gets its own set of hot yield points
+		rig.YieldReseed(uint64(rig.Rand(c.Seed, "yield", c.Prop, c.Batch.Name, id).Int63()))
+	}
 	return true
 }
 
@@ -122,6 +127,9 @@ type Property struct {
 	// RaceClaim decides whether a race-detector report (full text) is a
 	// violation of this property; nil = never.
 	RaceClaim func(report string) bool
+	// Yield: in addition to its plan the check runs copies of some of its worker batches (YieldPlan) against the
+	// schedule-perturbed copy of the library.
+	Yield bool
 	// MinClasses is the number of distinct non-trivial classes below which a
 	// run counts as having observed too little (inconclusive). Default 2.
 	MinClasses int
@@ -159,6 +167,54 @@ func splitBatches(prefix string, n int, race bool, procs int, extra map[string]s
 			a[k] = v
 		}
 		out = append(out, Batch{Name: fmt.Sprintf("%s-%d", prefix, i), Args: a, Race: race, Procs: procs})
+	}
+	return out
+}
+
+// YieldPlan returns the perturbed copies ("y-<name>") of a plan's batches: in the quick tier one worker batch per
+// mode (the one with GOMAXPROCS 4 if there is one), in the thorough tier every worker batch. Batches that wait for
+// real flood-control sleeps are left out (they measure nothing a yield could change and take seconds each).
+// modes whose batches get no perturbed copy: real flood-control sleeps, and workloads with a single goroutine
+var noYieldModes = map[string]bool{"flood": true, "alias": true, "defnick": true}
+
+func YieldPlan(tier string, plan []Batch) []Batch {
+	var out []Batch
+	cp := func(b Batch) Batch {
+		n := b
+		n.Name = "y-" + b.Name
+		n.Yield = true
+		n.Race = true
+		n.Args = map[string]string{}
+		for k, v := range b.Args {
+			n.Args[k] = v
+		}
+		return n
+	}
+	if tier == "thorough" {
+		for _, b := range plan {
+			if b.Kind == "" && !noYieldModes[b.Args["mode"]] {
+				out = append(out, cp(b))
+			}
+		}
+		return out
+	}
+	best := map[string]int{}
+	var modes []string
+	for i, b := range plan {
+		if b.Kind != "" || !b.Race || noYieldModes[b.Args["mode"]] {
+			continue
+		}
+		m := b.Args["mode"] + "/" + b.Args["tracking"]
+		j, ok := best[m]
+		if !ok {
+			best[m] = i
+			modes = append(modes, m)
+		} else if plan[j].Procs != 4 && b.Procs == 4 {
+			best[m] = i
+		}
+	}
+	for _, m := range modes {
+		out = append(out, cp(plan[best[m]]))
 	}
 	return out
 }
